@@ -19,6 +19,6 @@ def spec(tier, seed):
         "functions": FUNCS, "stubs": [],
         "rule": "inverse_rle on a block with optional INTRADC and N run/level events, all of quantizer 1..31, level -1024..1023 \\ {0} (superset of every codable level in the 7/8/11-bit forms), run 0..63, block position and the checked coefficient cell symbolic; oracle sign(L)(Q(2|L|+1)-[Q even]) saturated, placed by the Figure 14 zig-zag table; INTRADC for all 256 codes",
         "bounds": ["events per block: 1 (quick), 1..3 (thorough)", "unwind = events + 2 with unwinding assertions"],
-        "outside": ["more than 3 events per block (same loop body)", "escape-form level widths: parser block harnesses (C01 parser layer, [C11]-tagged)", "DQUANT: only 'the quantizer in force stays in 1..31 for every DQUANT on every +Q macroblock type' is decided (decoder-core scenarios), not the exact value Q+d"],
+        "outside": ["more than 3 events per block (same loop body)", "escape-form level widths: parser block harnesses (C01 parser layer, [C11]-tagged)", "DQUANT: decided on decoder-core scenarios of at most 2x2 macroblocks (exact value clip(1..31, previous QUANT + DQUANT) of every leading coded macroblock, observed at widths >= 3); the quantizer after a GOB header (GQUANT) is only range-checked"],
         "assumptions": ["zig-zag table and Table 15 transcribed from H.263 (01/2005)"],
     }
